@@ -228,6 +228,16 @@ func (x *Exec) Verify() {
 		for _, h := range fc.Holds {
 			x.assumeHeld(p, h)
 		}
+		for _, c := range fc.Assumes {
+			if c.Src == "clock_stable" {
+				// one clock value per operation: fix it before the preconditions are evaluated
+				x.clockStable = true
+				t := x.e.fresh("now", "Int")
+				p.assume("(>= " + t + " " + p.clock + ")")
+				p.clock = t
+				x.e.note("assume clock_stable: one clock value per operation (" + shortTypeKey(x.e.funcKey(fn)) + ")")
+			}
+		}
 		ctx := x.evalCtx(p, x.params)
 		ctx.old = nil
 		for _, c := range fc.Requires {
@@ -240,11 +250,6 @@ func (x *Exec) Verify() {
 		}
 		for _, c := range fc.Assumes {
 			if c.Src == "clock_stable" {
-				x.clockStable = true
-				t := x.e.fresh("now", "Int")
-				p.assume("(>= " + t + " " + p.clock + ")")
-				p.clock = t
-				x.e.note("assume clock_stable: one clock value per operation (" + shortTypeKey(x.e.funcKey(fn)) + ")")
 				continue
 			}
 			s, err := ctx.EvalBool(c.E)
